@@ -74,6 +74,21 @@ fn run_once(seed: u64, index: u64, rep: &mut Report, canary: u8, prior: Option<&
     w.ident = ("c15".into(), seed, index);
     let cap = buf_size as usize;
     let fill = rng.below(cap as u64 + 1) as usize;
+    // Earlier reads occupy the first slots (their buffers stay alive to the end), so that the
+    // buffer under test is not always slot 0.
+    let ahead = (index % u64::from(pool_size)) as usize;
+    let mut earlier: Vec<ReadBuf> = Vec::new();
+    for _ in 0..ahead {
+        let i = w.new_op(Kind_::ReadPool, &mut rng);
+        assert!(w.poll_slot(i).is_pending());
+        w.ring_poll();
+        let id = *simk::k().inflight_of(w.ring_fd).last().expect("pool read in flight");
+        w.complete(id, 1, false);
+        w.ring_poll();
+        if let Poll::Ready(mut o) = w.poll_slot(i) {
+            earlier.extend(o.rbufs.drain(..));
+        }
+    }
     // Get a buffer filled by the kernel.
     let i = w.new_op(Kind_::ReadPool, &mut rng);
     assert!(w.poll_slot(i).is_pending());
@@ -241,6 +256,7 @@ fn run_once(seed: u64, index: u64, rep: &mut Report, canary: u8, prior: Option<&
     }
     if second {
         alloc::a10(|| drop(buf));
+        alloc::a10(|| drop(std::mem::take(&mut earlier)));
         finish(&mut w, seed, index, rep, ops_done, desc, second);
         return snaps;
     }
@@ -309,6 +325,7 @@ fn run_once(seed: u64, index: u64, rep: &mut Report, canary: u8, prior: Option<&
     }
     // Release: the slot given back must be the one the kernel selected.
     alloc::a10(|| drop(buf));
+    alloc::a10(|| drop(std::mem::take(&mut earlier)));
     {
         let mut k = simk::k();
         effects::pbuf_audit(&mut k, w.ring_fd, bgid);
